@@ -200,6 +200,31 @@ def loadRowsWith (perRow : Bool) (rows : List (List Int × Frac)) : List (List F
 /-- the loader as coded: the divisor form is extracted from the source -/
 def loadRows (rows : List (List Int × Frac)) : List (List Frac) := loadRowsWith Params.genLoadDataPerRow rows
 
+
+/-! ### the dataset writer `generate_vrp_data(dataset_size, vrp_size, capacities=None)` as a function of its arguments
+(`data/generate_data.py`): the capacity it writes, and what a *sequence* of calls in one process sees -/
+
+abbrev CapTable := List (Nat × Frac)
+
+/-- `for k, v in capacities.items(): if k in CAPACITIES: CAPACITIES[k] = v` -/
+def updTable (tbl : CapTable) (ov : CapTable) : CapTable := tbl.map (fun e => (e.1, (ov.lookup e.1).getD e.2))
+
+/-- one call: the capacity written (`CAPACITIES[vrp_size]` after the override loop; `none` = `KeyError` for a size that is not
+a table key) and the table the *next* call will see — the same table when the updated table is a local of the call
+(`localTbl`), the updated one when it is shared state -/
+def vrpCall (localTbl : Bool) (tbl : CapTable) (ov : CapTable) (n : Nat) : Option Frac × CapTable :=
+  let t' := updTable tbl ov
+  (t'.lookup n, if localTbl then tbl else t')
+
+/-- a history of calls `(capacities override, vrp_size)` in one process -/
+def vrpCallsWith (localTbl : Bool) : CapTable → List (CapTable × Nat) → List (Option Frac)
+  | _, [] => []
+  | tbl, (ov, n) :: cs => let r := vrpCall localTbl tbl ov n; r.1 :: vrpCallsWith localTbl r.2 cs
+
+/-- the writer as coded: whether the table is local is extracted from the source -/
+def vrpCalls (calls : List (CapTable × Nat)) : List (Option Frac) :=
+  vrpCallsWith Params.genDataVrpTableLocal Params.genDataVrpCapacities calls
+
 /-! ### the npz container at the level of a key → array map with dtype / shape tags
 (`save_tensordict_to_npz`, `load_npz_to_tensordict`).  Array contents are abstract (`α`); what numpy is trusted to do is
 stated once, as a `Codec`. -/
